@@ -23,6 +23,10 @@ Correspondence streams
                        replays the answers in Model/DeflateStream.lean and compares every call's arguments, every
                        append and read, for random chunk layouts (memory / whole file / file at offset / prefix of a
                        longer file), output buffer sizes 1..128 KiB, scripted short reads, and 2 MiB+1 file chunks
+  e2e-rewrite          real server, both stat-cache engines: every way a source file changes (in place same size
+                       within the same second, later second, other size, replace-by-rename, untouched) after the
+                       compression cache was filled; bodies must decode to the CURRENT content, ETag changes iff the
+                       file was rewritten (the in-process harness owns its clock and re-stats: it cannot see this)
   e2e                  the real lighttpd (ASan+UBSan) with mod_deflate: file sizes around the internal
                        buffer limits incl. incompressible data, Accept-Encoding forms, min/max size and
                        MIME settings, revalidation, modify-between-requests histories (model: `run`),
@@ -1462,6 +1466,126 @@ def gen_e2e_histories(rng, n):
     return hs
 
 
+# ---------------------------------------------------------------- scenario B2: rewrite kinds through the real stat cache
+REWRITE_KINDS = ("same-size-same-second", "same-size-later-second", "different-size", "rename", "unchanged")
+
+
+def e2e_rewrite_batch(E, bd, default_engine, seed):
+    """Every way a source file changes, seen through the server's REAL stat cache (the in-process harness
+    re-stats on every tick of its own clock and cannot see stat_cache_stat_eq / refresh behaviour):
+    fill the compression cache for version A, rewrite to B (in place same size within the same second - only the
+    nanoseconds of mtime differ -, in place same size in a later second, in place with another size and the
+    very same mtime, replace-by-rename with the same size and mtime, or not at all), wait longer than the stat
+    cache refresh interval, then identity + gzip + deflate (twice: rebuild and cache hit).  Oracle: every body
+    decodes to the CURRENT content; the ETag changed iff the file was changed.  Explicit utime() values differ
+    from A's in one byte of one field only, so the linear ETag hash cannot collide."""
+    import random
+    rng = random.Random(seed)
+    conf, _ = E2E_CONFS["cache"]
+    if default_engine:
+        conf = conf.replace('server.stat-cache-engine = "disable"\n', "")
+    srv = e2e.Server(bd, conf, modules=("mod_deflate",))
+    rep0 = {"scenario": "rewrite", "config": "cache" + ("+stat-cache" if default_engine else ""), "conf": conf}
+    sec = 1700000000
+    ns_a = sec * 10 ** 9 + 5
+    cases = []
+    for kind in REWRITE_KINDS:
+        for size in (400, 70000):
+            name = "rw-%s-%d.txt" % (kind, size)
+            a = e2e_content(rng, "t", size)
+            bsz = size + 1 if kind == "different-size" else size
+            b = e2e_content(rng, "t", bsz)
+            if b[:size] == a[:size]:
+                b = b"#" + b[1:]
+            cases.append(dict(kind=kind, name=name, a=a, b=a if kind == "unchanged" else b, obs=[], ops=[], etags={}))
+
+    def fetch_all(c, cur, vt, twice):
+        path = b"/" + c["name"].encode()
+        rep = dict(rep0, kind=c["kind"], file=c["name"], size=len(cur))
+        r, err = h1_get(srv.port, path)
+        if err or r["status"] != 200:
+            E.violation("rewrite-response", "rewrite: identity request failed (%s)" % (err or r["status"]), rep)
+            return None
+        if r["body"] != cur:
+            E.violation("rewrite-identity", "rewrite (%s): identity body is not the current file content" % c["kind"], rep)
+        et = e2e.hdr(r, "etag")
+        for label in ("gzip", "deflate") * (2 if twice else 1):
+            rr, err = h1_get(srv.port, path, ae=label.encode())
+            c["ops"] += ["K", "R:0:%s:1:c1o1wro" % label]
+            c["obs"].append("q")
+            if err or rr["status"] != 200 or e2e.hdr(rr, "content-encoding") != label.encode():
+                E.violation("rewrite-response", "rewrite: coded request failed (%s)" % (err or rr["status"]), rep)
+                c["obs"].append("?")
+                continue
+            dec, why = decode(label, rr["body"])
+            if dec != cur:
+                E.violation("rewrite-stale:" + c["kind"], "stale or wrong content from deflate.cache-dir after the source "
+                            "file was rewritten (%s): the %s body decodes to %s" %
+                            (c["kind"], label, "the OLD content" if dec == c["a"] else (why or "other bytes")), rep)
+            if et and e2e.hdr(rr, "etag") != suffix_etag(et, label.encode()):
+                E.violation("rewrite-etag", "rewrite: coded ETag is not the identity ETag of the same moment + coding", rep)
+            c["obs"].append("S:?:%s:%s" % (label, "d" + HX(dec) if dec is not None else "BAD(%s)" % why))
+        if et:
+            c["etags"][et.decode().strip('"')] = vt
+        return et
+
+    try:
+        with srv:
+            for c in cases:
+                fp = os.path.join(srv.docroot, c["name"])
+                with open(fp, "wb") as f:
+                    f.write(c["a"])
+                os.utime(fp, ns=(ns_a, ns_a))
+                c["ops"].append("M:0:1:%s" % HX(c["a"]))
+                c["obs"].append("q")
+                c["et_a"] = fetch_all(c, c["a"], "1.%d" % len(c["a"]), False)
+            for c in cases:
+                fp = os.path.join(srv.docroot, c["name"])
+                k = c["kind"]
+                if k == "unchanged":
+                    continue
+                if k == "rename":
+                    with open(fp + ".new", "wb") as f:
+                        f.write(c["b"])
+                    os.utime(fp + ".new", ns=(ns_a, ns_a))
+                    os.replace(fp + ".new", fp)
+                else:
+                    with open(fp, "r+b") as f:            # in place: same inode
+                        f.truncate(0)
+                        f.write(c["b"])
+                    ns_b = {"same-size-same-second": ns_a + 4, "same-size-later-second": ns_a + 2 * 10 ** 9,
+                            "different-size": ns_a}[k]
+                    os.utime(fp, ns=(ns_b, ns_b))
+                c["ops"].append("M:0:2:%s" % HX(c["b"]))
+                c["obs"].append("q")
+            time.sleep(2.3 if default_engine else 0.05)      # > stat cache validity + one main-loop tick
+            for c in cases:
+                rep = dict(rep0, kind=c["kind"], file=c["name"])
+                vt = ("1.%d" if c["kind"] == "unchanged" else "2.%d") % len(c["b"])
+                et_b = fetch_all(c, c["b"], vt, True)
+                if c["et_a"] is None or et_b is None:
+                    continue
+                if c["kind"] == "unchanged" and et_b != c["et_a"]:
+                    E.violation("rewrite-etag-unstable", "ETag of an untouched file changed", rep)
+                if c["kind"] != "unchanged" and et_b == c["et_a"]:
+                    E.violation("rewrite-etag-stale:" + c["kind"], "ETag unchanged although the source file was rewritten "
+                                "(%s): validators / cache keys of the old content stay in use" % c["kind"], rep)
+                lst = []
+                for nm, etag, label, pid, data in e2e_list_cache(srv):
+                    if nm != c["name"]:
+                        continue
+                    dec, why = decode(label, data)
+                    lst.append("F:0:%s:%s:%s" % (c["etags"].get(etag, "?"), label,
+                                                "d" + HX(dec) if dec is not None else "BAD(%s)" % why))
+                E.case("cache " + " ".join(c["ops"]), " ".join(c["obs"] + ["|"] + sorted(lst)), rep,
+                       "e2e:rewrite:%s:%s:%d" % ("statcache" if default_engine else "nostatcache", c["kind"], len(c["a"])))
+        sr = srv.sanitizer_report()
+        if sr:
+            E.violation("sanitizer", "sanitizer / assertion report from the server", dict(rep0, log=sr[-3000:]))
+    finally:
+        shutil.rmtree(srv.root, ignore_errors=True)
+
+
 # ---------------------------------------------------------------- scenario C: cache-writer faults (strace)
 FAULTS = {
     # name: (strace inject expression, model write events, model rename event, server dies)
@@ -1650,6 +1774,9 @@ def run_e2e(ctx):
         nb2 = 2 if ctx.quick else 8
         for k in range(nb2):
             jobs.append(ex.submit(e2e_history_batch, EB, bd, hs2[k::nb2], 2.3))
+        ER = E2E(ctx)
+        jobs.append(ex.submit(e2e_rewrite_batch, ER, bd, True, ctx.seed))
+        jobs.append(ex.submit(e2e_rewrite_batch, ER, bd, False, ctx.seed + 1))
         if have_strace:
             for i, (f, lab) in enumerate(faults):
                 jobs.append(ex.submit(e2e_fault_one, EC, bd, f, lab, ctx.seed * 1000 + i))
@@ -1658,6 +1785,7 @@ def run_e2e(ctx):
     EA.finish("e2e-matrix(lighttpd)", canon_matrix_model)
     EB.finish("e2e-history(lighttpd)", canon_history_model)
     EC.finish("e2e-faults(lighttpd+strace)", canon_history_model)
+    ER.finish("e2e-rewrite(lighttpd)", canon_history_model)
     ctx.notes.append("e2e: %d file sizes x {text, random} x %d Accept-Encoding forms x %d configurations; "
                      "%d modification histories; %d strace fault scenarios (fired: %d)"
                      % (len(sizes), len(ae_forms), len(confs), len(hists), len(faults) if have_strace else 0,
